@@ -5,6 +5,7 @@ import (
 	"fmt"
 	"os"
 	"path/filepath"
+	"sort"
 	"strings"
 
 	"github.com/bmatcuk/doublestar/v4"
@@ -245,7 +246,8 @@ func (ma *ModuleAnalyzer) analyzeModuleDependencies(graph *DependencyGraph, file
 					resolvedModules[targetModule] = true
 				}
 				// Add dependency for each unique resolved module
-				for resolvedModule := range resolvedModules {
+				// (in sorted order so that edges are added deterministically)
+				for _, resolvedModule := range sortedModuleSet(resolvedModules) {
 					// __init__.py importing its own submodules is internal structure (see above)
 					if strings.HasSuffix(filePath, "__init__.py") && strings.HasPrefix(resolvedModule, moduleName+".") {
 						continue
@@ -263,7 +265,8 @@ func (ma *ModuleAnalyzer) analyzeModuleDependencies(graph *DependencyGraph, file
 					}
 				}
 				// Add dependency for each unique resolved module
-				for resolvedModule := range resolvedModules {
+				// (in sorted order so that edges are added deterministically)
+				for _, resolvedModule := range sortedModuleSet(resolvedModules) {
 					graph.AddDependency(moduleName, resolvedModule, edgeType, imp)
 				}
 			} else {
@@ -343,6 +346,7 @@ func (ma *ModuleAnalyzer) collectModuleImports(ast *parser.Node, filePath string
 			for name := range nameSet {
 				importedNames = append(importedNames, name)
 			}
+			sort.Strings(importedNames)
 
 			imp := &ImportInfo{
 				Statement:      ma.buildImportStatement(node),
